@@ -259,8 +259,12 @@ func vMakeArrDef(tag string) vArrDef {
 	d.hasMaxI, d.hasMinI = vBool(tag+".hasMaxItems"), vBool(tag+".hasMinItems")
 	d.maxI, d.minI = vI64(tag+".maxItems"), vI64(tag+".minItems")
 	vAssume(vAnd(d.maxI >= 0, d.minI >= 0))
-	d.cf = []string{"", "csv", "pipes"}[vChoice(tag+".collectionFormat", 3)]
-	d.itemInt = vBool2(tag + ".itemsAreIntegers")
+	if vParam("arrlite") == 1 {
+		d.itemInt = true
+	} else {
+		d.cf = []string{"", "csv", "pipes"}[vChoice(tag+".collectionFormat", 3)]
+		d.itemInt = vBool2(tag + ".itemsAreIntegers")
+	}
 	if d.itemInt {
 		d.hasItemMax, d.itemMax = vBool(tag+".items.hasMax"), vF64(tag+".items.max")
 	} else {
@@ -429,4 +433,31 @@ func VerifC13NumericEnum() {
 	diffs, _ := Compare(s1, s2)
 	vObserve("ndiffs", len(diffs))
 	vAssert(vBreaking(diffs), "numeric value accepted by the old enum and rejected by the new one, but no Breaking change reported")
+}
+
+func init() { vRegister("VerifC13Override", VerifC13Override) }
+
+// C13: a parameter declared at path level and overridden by the operation: the operation's declaration is the
+// effective one on both sides, so narrowing it is breaking (and what the path level says is irrelevant)
+func VerifC13Override() {
+	old := vMakeNumDef("old", false)
+	new := vMakeNumDef("new", false)
+	shared := vMakeNumDef("pathlevel", false)
+	w := vF64("witness")
+	vAssume(old.accepts(w))
+	vAssume(vNot(new.accepts(w)))
+	if vKnown("C13-D2", vOr(old.exMax != new.exMax, old.exMin != new.exMin)) {
+		return
+	}
+	vCover("witness-exists")
+	mk := func(d vNumDef) *spec.Swagger {
+		sw := vSpecWithParams(vQueryParam("p", d.typ, d.format, d.required, d.validations()))
+		pi := sw.Paths.Paths["/a"]
+		pi.Parameters = []spec.Parameter{vQueryParam("p", shared.typ, shared.format, shared.required, shared.validations())}
+		sw.Paths.Paths["/a"] = pi
+		return sw
+	}
+	diffs, _ := Compare(mk(old), mk(new))
+	vObserve("ndiffs", len(diffs))
+	vAssert(vBreaking(diffs), "the operation-level override of a path-level parameter was narrowed but no Breaking change reported")
 }
